@@ -35,25 +35,30 @@ func DefaultSolvers(timeoutS int) []SolverCfg {
 }
 
 // Script assembles the SMT-LIB query of one obligation.
-func (u *Unit) Script(ob *Obligation) string {
+func (u *Unit) Script(ob *Obligation, pi int) string {
+	part := ob.Parts[pi]
 	var sb strings.Builder
 	sb.WriteString("(set-option :produce-models true)\n(set-logic ALL)\n")
 	for _, d := range u.Sorts.decls {
 		sb.WriteString(d)
 		sb.WriteByte('\n')
 	}
-	for _, it := range u.Items[:ob.Prefix] {
+	for _, it := range u.Items[:part.Prefix] {
 		sb.WriteString(it)
 		sb.WriteByte('\n')
 	}
 	if ob.Expect == "sat" {
-		sb.WriteString("(assert " + ob.Goal + ")\n")
+		sb.WriteString("(assert " + part.Goal + ")\n")
 	} else {
-		sb.WriteString("(assert (not " + ob.Goal + "))\n")
+		sb.WriteString("(assert (not " + part.Goal + "))\n")
 	}
 	sb.WriteString("(check-sat)\n")
-	if len(ob.Inputs) > 0 && ob.Expect != "sat" {
-		sb.WriteString("(get-value (" + strings.Join(ob.Inputs, " ") + "))\n")
+	if len(part.Witness) > 0 && ob.Expect != "sat" {
+		var ts []string
+		for _, w := range part.Witness {
+			ts = append(ts, w.Term)
+		}
+		sb.WriteString("(get-value (" + strings.Join(ts, " ") + "))\n")
 	}
 	return sb.String()
 }
@@ -165,26 +170,35 @@ func sanitizeFile(s string) string {
 }
 
 type ObResult struct {
-	Ob  *Obligation
-	U   *Unit
-	Res SolverResult
-	OK  bool
+	Ob       *Obligation
+	U        *Unit
+	Res      SolverResult // aggregated over parts (first failing part's result if any)
+	FailPart int          // index of the failing part, -1 if none
+	OK       bool
+	Seconds  float64
+	Bytes    int
+	Solvers  map[string]int
 }
 
-// SolveAll discharges all obligations with a worker pool.
+// SolveAll discharges all obligations (every part of each) with a worker pool.
 func SolveAll(units []*Unit, dir string, solvers []SolverCfg, workers int, all bool) []ObResult {
 	type job struct {
-		u  *Unit
-		ob *Obligation
-		i  int
+		u      *Unit
+		ob     *Obligation
+		oi, pi int
 	}
 	var jobs []job
+	var results []ObResult
 	for _, u := range units {
 		for _, ob := range u.Obls {
-			jobs = append(jobs, job{u, ob, len(jobs)})
+			oi := len(results)
+			results = append(results, ObResult{Ob: ob, U: u, FailPart: -1, OK: true, Solvers: map[string]int{}})
+			for pi := range ob.Parts {
+				jobs = append(jobs, job{u, ob, oi, pi})
+			}
 		}
 	}
-	results := make([]ObResult, len(jobs))
+	var mu sync.Mutex
 	var wg sync.WaitGroup
 	ch := make(chan job)
 	for w := 0; w < workers; w++ {
@@ -192,12 +206,25 @@ func SolveAll(units []*Unit, dir string, solvers []SolverCfg, workers int, all b
 		go func() {
 			defer wg.Done()
 			for j := range ch {
-				r := Solve(j.u.Script(j.ob), dir, fmt.Sprintf("%04d_%s", j.i, j.ob.Name), solvers, all)
+				script := j.u.Script(j.ob, j.pi)
+				r := Solve(script, dir, fmt.Sprintf("%04d_%d_%s", j.oi, j.pi, j.ob.Name), solvers, all)
 				ok := r.Status == "unsat"
 				if j.ob.Expect == "sat" {
 					ok = r.Status == "sat"
 				}
-				results[j.i] = ObResult{Ob: j.ob, U: j.u, Res: r, OK: ok}
+				mu.Lock()
+				res := &results[j.oi]
+				res.Seconds += r.Seconds
+				res.Bytes += len(script)
+				res.Solvers[r.Solver]++
+				if !ok && (res.OK || j.pi < res.FailPart) {
+					res.OK = false
+					res.FailPart = j.pi
+					res.Res = r
+				} else if res.OK {
+					res.Res = r
+				}
+				mu.Unlock()
 			}
 		}()
 	}
